@@ -13,6 +13,9 @@ RULE = ("(a) arrays of length 0..12 mixing all JSON types in mixed Go representa
         "a python canonical-form oracle; (c) the hash law through the verif hook: Equal(x,y) => hash(x)=hash(y) under two fresh seeds per op, "
         "compared with the model's byte-stream equality. Every Validate call draws its own seed; shards run in separate processes. "
         "Non-trivial: arrays of length >= 2 / container-valued enum members; distinct = operation text")
+RULE += (". Widened (~6%): schemas BUILT IN GO (op resolve-desc) whose enum / const lists a Go slice, validated against an instance that is "
+         "a RE-SLICE of that very slice (same backing array, length 0..len+2; harness argument aliasInst), at the root or nested in an "
+         "array / object on either side: a shorter or longer window is another JSON value, so only the full length matches")
 TRUSTED = ["python canonical-form oracle; 64-bit hash collisions are disregarded"]
 
 
@@ -63,9 +66,63 @@ def typed_case(rng):
             "meta": {"expect": [not dup], "len": len(ys), "typed": et}}
 
 
+def alias_case(rng):
+    """enum / const of a Go-built schema lists the slice M (possibly inside an array or object); the instance holds M[:n] — a window
+    onto M's own backing array — where the listed value holds M. Equal as JSON values only when n = len(M) (or when the window
+    happens to equal another listed value: the oracle compares canonical forms)."""
+    M = [gv.gen_json(rng, 1) for _ in range(rng.choice([0, 1, 1, 2, 2, 3, 4]))]
+    more = [gv.gen_json(rng, 1) for _ in range(2)]
+    if rng.random() < 0.4 and M:
+        more[0] = M[0]
+    n = rng.choice([len(M)] + [k for k in range(len(M) + 3) if k != len(M)] * 2)
+    W = (M + more)[:n]
+    nest = rng.choice(["", "", "arr", "obj"])
+    x = gv.gen_json(rng, 0)
+    if nest == "arr":
+        listed, held, path = [x, M], [x, W], [1]
+    elif nest == "obj":
+        listed, held, path = Obj([("k", M), ("x", x)]), Obj([("x", x), ("k", W)]), ["k"]
+    else:
+        listed, held, path = M, W, []
+    others = [gv.gen_json(rng, 1) for _ in range(rng.randint(0, 2))]
+    if rng.random() < 0.15:
+        others.append(held)            # the window is itself listed elsewhere: valid whatever n is
+    kw = rng.choice(["Enum", "Enum", "Const"])
+    if kw == "Const":
+        vals, idx = [listed], 0
+        node = {"Const": {"v": listed}}
+    else:
+        idx = rng.randint(0, len(others))
+        vals = others[:idx] + [listed] + others[idx:]
+        node = {"Enum": vals}
+    if not all(gv.float64_ok(v) for v in vals + [held]):
+        return None
+    where = rng.choice(["root", "root", "allOf", "prop", "items"])
+    if where == "root":
+        nodes, ni, inst, ipath = [node], 0, held, []
+    elif where == "allOf":
+        nodes, ni, inst, ipath = [{"AllOf": [1]}, node], 1, held, []
+    elif where == "prop":
+        nodes, ni, inst, ipath = [{"Properties": [["p", 1]]}, node], 1, Obj([("p", held)]), ["p"]
+    else:
+        nodes, ni, inst, ipath = [{"Items": 1}, node], 1, [held], [0]
+    exp = any(canon(v) == canon(held) for v in vals)
+    al = {"inst": 0, "ipath": ipath + path, "node": ni, "field": kw, "index": idx, "spath": path, "n": n}
+    # second instance: the same JSON value built on its own (no sharing)
+    return {"op": "resolve-desc", "args": {"desc": {"nodes": nodes, "root": 0}, "ginsts": [gv.canonical_repr(inst), gv.canonical_repr(inst)],
+                                           "aliasInst": [al]},
+            "meta": {"expect": [exp, exp], "len": 2, "alias": True}}
+
+
 def gen(rng, tier, n):
     ops = []
     while len(ops) < n:
+        r = rng.random()
+        if r < 0.06:
+            o = alias_case(rng)
+            if o is not None:
+                ops.append(o)
+            continue
         r = rng.random()
         if r < 0.12:
             o = typed_case(rng)
@@ -145,5 +202,20 @@ def judge(o, go, m):
             return "violation", "hash law broken on the real package: Equal(x,y) but hash(x) != hash(y)"
         if go.get("hash_equal") != mo.get("hash_equal"):
             return "violation", "hash streams: real package equal=%r, model equal=%r" % (go.get("hash_equal"), mo.get("hash_equal"))
+        return "agree", ""
+    if o["op"] == "resolve-desc":
+        if go is None:
+            return "violation:harness", "no answer"
+        if go.get("outcome") == "harness-error":
+            return "violation:harness", "the harness could not build the aliased instance: %s" % go.get("detail")
+        if m is None or "model" not in m:
+            return "violation:driver", "driver: %r" % (m,)
+        mo = m["model"]
+        if go.get("outcome") != "resolved" or mo.get("outcome") != "resolved":
+            return "violation", "outcome: real package %s, model %s" % (go.get("outcome"), mo.get("outcome"))
+        ev = ["valid" if e else "invalid" for e in o["meta"]["expect"]]
+        if go.get("verdicts") != mo.get("verdicts") or go.get("verdicts") != ev:
+            return "violation", "verdicts (first instance: a re-slice of the listed slice; second: the same value built independently): real package %r, model %r, oracle %r" % (
+                go.get("verdicts"), mo.get("verdicts"), ev)
         return "agree", ""
     return vjudge.judge_validate(o, go, m)
